@@ -716,13 +716,20 @@ where
         },
         SpawnSpec::Build { mailbox, strategy, timeout, fail_on_timeout, owning } => {
             let mut b = hannibal::build(probe);
-            if let Some(t) = timeout {
-                b = b.timeout(Duration::from_millis(*t as u64)).fail_on_timeout(*fail_on_timeout);
+            // both call orders of the builder are legal: even timeouts are configured before the channel
+            // is chosen, odd ones afterwards
+            let early = timeout.filter(|t| t % 2 == 0);
+            let late = timeout.filter(|t| t % 2 == 1);
+            if let Some(t) = early {
+                b = b.timeout(Duration::from_millis(t as u64)).fail_on_timeout(*fail_on_timeout);
             }
-            let b = match mailbox {
+            let mut b = match mailbox {
                 Mailbox::Unbounded => b.unbounded(),
                 Mailbox::Bounded(n) => b.bounded(*n as usize),
             };
+            if let Some(t) = late {
+                b = b.timeout(Duration::from_millis(t as u64)).fail_on_timeout(*fail_on_timeout);
+            }
             match (strategy, owning) {
                 (RStrat::Default, false) => a(b.spawn()),
                 (RStrat::Default, true) => o(b.spawn_owning()),
